@@ -306,11 +306,33 @@ func (m *Model) UpdateMode(mode *traits.ElectricMode, opts ...resource.WriteOpti
 }
 
 func (m *Model) updateMode(mode *traits.ElectricMode, opts ...resource.WriteOption) (*traits.ElectricMode, error) {
+	// invariant 1: at most one mode is normal, as in createOrAddMode
+	if mode.Normal && writesNormal(opts) {
+		if normal, ok := m.normalMode(); ok && normal.Id != mode.Id {
+			if _, exists := m.findMode(mode.Id); exists {
+				return nil, ErrNormalModeExists
+			}
+		}
+	}
 	msg, err := m.modes.Update(mode.Id, mode, opts...)
 	if err != nil {
 		return nil, err
 	}
 	return msg.(*traits.ElectricMode), nil
+}
+
+// writesNormal returns true if an update with the given options writes the normal field.
+func writesNormal(opts []resource.WriteOption) bool {
+	mask := resource.ComputeWriteConfig(opts...).UpdateMask
+	if mask == nil {
+		return true
+	}
+	for _, p := range mask.Paths {
+		if p == "normal" {
+			return true
+		}
+	}
+	return false
 }
 
 // PullModes subscribes to changes to modes. Creation, modification or deletion of a mode on this device will send
